@@ -408,7 +408,13 @@ func (cr *concRun) writersOf(k int) []interval {
 	}
 	for _, ev := range cr.r.Events {
 		if ev.Atomic && ev.K == k {
-			out = append(out, interval{ev.Seq, ev.Seq})
+			// the whole table computation that emitted the event: the in-flight call is cleared
+			// somewhere between taking the bucket lock and invoking the handler
+			b := ev.Begin
+			if b > ev.Seq {
+				b = ev.Seq
+			}
+			out = append(out, interval{b, ev.Seq})
 		}
 	}
 	return out
@@ -457,9 +463,10 @@ func (cr *concRun) checkLoads() {
 						start = h.Call
 					}
 				}
+				end := b.Enter
 				excused := false
 				for _, w := range ws {
-					if w.a <= b.Enter && w.b >= start {
+					if w.a <= end && w.b >= start {
 						excused = true
 						break
 					}
